@@ -5,6 +5,8 @@ set -u
 . "$(dirname "${BASH_SOURCE[0]}")/env.sh"
 mkdir -p "$VERIF_ROOT/mc/bin"
 "$VERIF_ROOT/scripts/build.sh" || exit 2
+# C05 also uses the -race build for its supplementary free-running pass.
+if [ "$1" = "C05" ]; then "$VERIF_ROOT/scripts/build.sh" race || exit 2; fi
 cd "$VERIF_ROOT" || exit 2
 SCRATCH=$(mktemp -d "${TMPDIR:-/tmp}/verifmc.XXXXXX")
 trap 'rm -rf "$SCRATCH"' EXIT
